@@ -597,7 +597,7 @@ func TestC13(t *testing.T) {
 	perm(make([]bool, len(prioPool)), nil)
 	rec.R.Exhaustive = complete
 	rec.Flush()
-	total := 300 / cfg.NShards
+	total := 3000 / cfg.NShards
 	if cfg.Thorough() {
 		total = 40000 / cfg.NShards
 	}
